@@ -1,0 +1,19 @@
+// Verification contracts (comment-only, compiled only with the "verif" build tag; read by /verif/govc).
+
+//go:build verif
+// +build verif
+
+package ucon
+
+// Property C14, clause 2: the hand-written DecodeRLP of the consensus message envelope copies every decoded field.
+
+//@ func (*Message).DecodeRLP props C14
+//@ panics none
+//@ requires m != nil && s != nil
+//@ modifies all, c14Consumed, c14K, c14Sz, c14P
+//@ assert before return#1: [Code] m.Code == msg.Code
+//@ assert before return#1: [Payload] m.Payload == msg.Payload
+//@ assert before return#1: [Signature] m.Signature == msg.Signature
+
+// The encode side ("EncodeRLP passes each field"): the argument is a `[]interface{}` literal boxed into an interface; the
+// contract language cannot name that type in unbox(i, T) (engine_requests/C14.md item 12): not decided.
